@@ -180,14 +180,24 @@ pub fn malform(r: &mut Rng, e: &mut EchoReq) -> Option<String> {
                     return None;
                 }
                 e.body = Some(nb);
+                if r.chance(1, 4) {
+                    // still JSON as far as the media type goes; what follows
+                    // the media type must not keep the refusal from coming
+                    e.ctype = Some((*r.pick(&["application/json; strict", "application/json; charset", "application/json;x;y=1", "application/json ; charset=utf-8 ; flag"])).to_string());
+                }
                 Some(why)
             }
             _ => {
                 // content type
-                let (ct, why): (Vec<u8>, &str) = match r.below(4) {
+                let (ct, why): (Vec<u8>, &str) = match r.below(8) {
                     0 => (b"application/x-www-form-urlencoded".to_vec(), "the other typed content type"),
                     1 => (b"text/plain".to_vec(), "unknown content type"),
                     2 => (b"application/jsonx".to_vec(), "near-miss content type"),
+                    // wrong types with parameters of every shape
+                    4 => (b"text/plain; format".to_vec(), "unknown content type with a flag parameter"),
+                    5 => (b"application/x-www-form-urlencoded;x".to_vec(), "the other typed content type with a flag parameter"),
+                    6 => (b"text/plain; charset=utf-8; =; ;;".to_vec(), "unknown content type with odd parameters"),
+                    7 => (b"application/json/extra; q=\"".to_vec(), "ill-formed media type"),
                     _ => (vec![b'a', 0xff, b'/', 0xfe], "content type with obs-text"),
                 };
                 e.ctype = None;
@@ -411,7 +421,9 @@ pub fn gen_random(seed: u64, idx: u64) -> Plan {
                 None => echo_plan(&e, nonce, is_h2),
             };
             if is_h2 {
-                c.h2.push(e.h2(j, r.range(0, 30)));
+                let mut h = e.h2(j, r.range(0, 30));
+                h.no_length = e.body.is_some() && r.chance(1, 2);
+                c.h2.push(h);
                 c.reqs.push(rp);
                 nonce += 1;
                 continue;
